@@ -31,6 +31,8 @@ type depQuery struct {
 	cuts   int
 	stack  []ssa.Value
 	why    map[ssa.Value]ssa.Value
+	// exploreAll: visit the whole backward slice (used with a target that records and answers false)
+	exploreAll bool
 }
 
 func newDepQuery(p *Program, target func(v ssa.Value) bool) *depQuery {
@@ -338,7 +340,7 @@ func (q *depQuery) dependsInCallee(v ssa.Value, depth int) bool {
 		return q.depends(v, depth)
 	}
 	if q.np == nil {
-		q.np = &depQuery{p: q.p, target: q.target, memo: map[ssa.Value]int{}, budget: q.budget, noParams: true}
+		q.np = &depQuery{p: q.p, target: q.target, memo: map[ssa.Value]int{}, budget: q.budget, noParams: true, exploreAll: q.exploreAll}
 	}
 	q.np.budget = q.budget
 	r := q.np.depends(v, depth)
@@ -367,4 +369,13 @@ func callsTo(p *Program, fn *ssa.Function) []ssa.CallInstruction {
 		}
 	}
 	return out
+}
+
+// sliceVisit visits every value of the backward slice of v (within the function and its callees;
+// parameters of the starting function are leaves when local is set).
+func sliceVisit(p *Program, v ssa.Value, local bool, visit func(ssa.Value)) {
+	q := newDepQuery(p, func(x ssa.Value) bool { visit(x); return false })
+	q.exploreAll = true
+	q.noParams = local
+	q.depends(v, 0)
 }
